@@ -715,7 +715,15 @@ let rec run_roundtrip (args : sx list) : sx =
                        L [A "ok"; sx_query q; sx_ustr t1; sx_query q2;
                           sx_result sx_ustr (query_text e q2); ev_on q; ev_on q2;
                           L [A "gate"; sx_bool (gate_query e.e_min_index e.e_max_index q)];
-                          L [A "ext"; sx_bool (ext_query q)]]))
+                          L [A "ext"; sx_bool (ext_query q)];
+                          (* bridge statements tested before they are proved *)
+                          L [A "lex-bridge"; (match query_toks e q with
+                                              | Ok ts -> sx_bool (tokenize e t1 = ts)
+                                              | Err x -> A (exn_name x))];
+                          L [A "parse-bridge"; (match query_toks e q with
+                                                | Ok ts -> sx_bool (compile_tokens e re_ok_oracle ts = Ok (norm_query q))
+                                                | Err x -> A (exn_name x))];
+                          L [A "norm-is-reparse"; sx_bool (q2 = norm_query q)]]))
        with Unsupported_case w -> L [A "unsupported"; A w])
   | _ -> failwith "roundtrip: bad args"
 
